@@ -14,7 +14,7 @@ package sequence
 // respX: the response in the context, if any, answers the context's query, is well-formed and carries no OPT
 //@ spec func respX(qCtx *query_context.Context) bool = qCtx.resp != nil ==> respOK(qCtx.query, qCtx.resp)
 // respWF: the response, if any, is a well-formed message of its own without OPT
-//@ spec func respWF(qCtx *query_context.Context) bool = qCtx.resp != nil ==> noOPT(qCtx.resp.Extra) && qCtx.resp != qCtx.query && wfMsg(qCtx.resp) && okRRs(qCtx.resp.Extra)
+//@ spec func respWF(qCtx *query_context.Context) bool = qCtx.resp != nil ==> noOPT(qCtx.resp.Extra) && qCtx.resp != qCtx.query && wfMsg(qCtx.resp) && okRRs(qCtx.resp.Extra) && (len(qCtx.resp.Question) > 0 ==> qCtx.resp.Question.ref != qCtx.query.Question.ref)
 
 // Behavioural contract every Executable (plugin, sequence, wrapped chain) must meet (C03, C15):
 // the query's ID and question are the same on return as on entry, the context still holds the
